@@ -1064,7 +1064,10 @@ def audit_knobs(ctx, case):
         case["old_index"] = "entries"
     if rng.random() < 0.4:
         case["obj_name"] = True
-    if case["form"] != "build" and rng.random() < 0.5:
+    if case["form"] != "build" and rng.random() < 0.5 \
+            and not any(e["t"] == "f" and e["c"] is None for e in case["spec"]):
+        # (an entry with neither hash nor a non-empty Meta comes back from the SQLite round trip with meta None
+        #  as well - empty Meta |-> None is C20's projection - and is then indistinguishable from nothing: not used)
         case["route"] = rng.choice(["sqlite", "sqlite-view"])
     if rng.random() < 0.25:
         case["ws_symlink"] = True
